@@ -94,6 +94,19 @@ def run(prog, ctx):
                 [(x[0], show(x[1])[:40], show(x[2])[:40] if len(x) > 2 else "") for x in fx] for fx in first][:2], mrg.id)
     else:
         res.discharged += 1
+    # lost updates: a field value computed from a read taken before a call that itself updates the field (merge replays the other
+    # sketch's counters through update_with_count, which purges and adds to offset)
+    # exception (confirmed by reading): merge() sets stream_weight = self + other on purpose *after* the replay, because the
+    # replayed counters only sum to a lower bound of the other sketch's stream weight; the replay's additions must be discarded
+    LOST_OK = {("merge", "stream_weight")}
+    lost = [x for x in C.lost_updates(prog, F) if (x[0].item_name, x[1]) not in LOST_OK]
+    res.obligations += 1
+    if lost:
+        for (f_, fld_, cb_, span_) in lost[:3]:
+            res.violate("C07.C", "C07.C|%s|lost-update|%s" % (f_.id, fld_), "%s overwrites self.%s with a value computed before calling %s, which also updates self.%s: that update is lost" % (
+                f_.id, fld_, f_.blocks[cb_].term[1].get("callee"), fld_), f_.id, span_)
+    else:
+        res.discharged += 1
     res.rule("C07.C", len(st_off) + len(st_w), 2, "conserving stores in merge")
 
     # ---------------- C07.B bound formulas
